@@ -24,6 +24,19 @@
 //! also be OLDER than everything issued so far (stamps from a descending clock, still distinct);
 //! such a command is never delivered to the slot that issued the current newest command, so the
 //! newest issued command is never withdrawn by the harness itself.
+//!
+//! Extreme stamps: in ~30% of the relay and chain cases the stamps come from the whole i64 range
+//! (`Stamps`, extreme mode: i64::MIN, MIN+1, around +-2^62, +-5e18, -1, 0, 1, MAX-1, MAX, uniform and
+//! ordinary values; still strictly "newer than everything before" / "older than everything
+//! before" and distinct), so that commands whose stamps are 2^63 or more apart sit on the two
+//! sides of one device. On the command and state paths of Terminal, Invert, GearTrain and Axle the
+//! crate only COMPARES stamps (`>`, `>=`, max); nothing subtracts them, so nothing can overflow.
+//!
+//! Moved devices: in a fraction of the cases the device is built, `update()` is called once (in
+//! some cases then a command is set on one terminal and `update()` called again), and only then
+//! the device object is MOVED (box, Vec, struct field, returned from a function); terminals are
+//! taken from the final location only. A command issued before the move is present at its
+//! terminal like any other issued command (it is the oldest of the case).
 use rrtk::devices::*;
 use rrtk::*;
 use rrtk_mon::*;
@@ -166,8 +179,125 @@ impl PastClock {
         self.0
     }
 }
+/// Stamps the crate must order correctly although it can only COMPARE them (it never subtracts
+/// command stamps): the i64 extremes, +-2^62, +-5e18, the neighbours of zero, and ordinary ones.
+fn landmark(rng: &mut Rng) -> i128 {
+    let j = rng.range_i64(0, 1000) as i128;
+    match rng.below(16) {
+        0 => i64::MIN as i128,
+        1 => i64::MIN as i128 + 1,
+        2 => -(1i128 << 62) - j,
+        3 => -(1i128 << 62) + j,
+        4 => -5_000_000_000_000_000_000 + j - 500,
+        5 => -1,
+        6 => 0,
+        7 => 1,
+        8 => 5_000_000_000_000_000_000 + j - 500,
+        9 => (1i128 << 62) - j,
+        10 => (1i128 << 62) + j,
+        11 => i64::MAX as i128 - 1,
+        12 => i64::MAX as i128,
+        13 => rng.range_i64(-(1i64 << 40), 1i64 << 40) as i128,
+        14 => rng.range_i64(-2_000_000_000, 2_000_000_000) as i128,
+        _ => rng.range_i64(i64::MIN, i64::MAX) as i128,
+    }
+}
+/// The stamp source of one case: `next` is newer than everything issued before, `older` is older
+/// than everything issued before; all distinct. Ordinary mode: the moderate clocks above.
+/// Extreme mode: anywhere in the i64 range (landmarks, neighbours, uniform), kept feasible by
+/// budgets = upper bounds on the number of calls still to come.
+struct Stamps {
+    extreme: bool,
+    clock: Clock,
+    past: PastClock,
+    /// extreme mode: last stamp issued upwards / downwards
+    up: Option<i128>,
+    down: Option<i128>,
+    left_up: u64,
+    left_down: u64,
+}
+impl Stamps {
+    fn new(rng: &mut Rng, extreme: bool, left_up: u64, left_down: u64) -> Stamps {
+        let clock = Clock::new(rng);
+        let past = PastClock::before(&clock);
+        Stamps { extreme, clock, past, up: None, down: None, left_up, left_down }
+    }
+    /// tighten the budgets (never widens)
+    fn budget(&mut self, left_up: u64, left_down: u64) {
+        self.left_up = self.left_up.min(left_up);
+        self.left_down = self.left_down.min(left_down);
+    }
+    fn choose(rng: &mut Rng, lo: i128, hi: i128, towards_lo: bool) -> i128 {
+        assert!(lo <= hi, "stamp budget exhausted (harness bug)");
+        let near = if towards_lo { lo } else { hi };
+        match rng.below(20) {
+            0..=6 => {
+                for _ in 0..4 {
+                    let l = landmark(rng);
+                    if l >= lo && l <= hi {
+                        return l;
+                    }
+                }
+                near
+            }
+            7..=9 => near,
+            10..=12 => {
+                let j = rng.range_i64(1, 1000) as i128;
+                if towards_lo { (lo + j).min(hi) } else { (hi - j).max(lo) }
+            }
+            13 => {
+                if towards_lo { hi } else { lo }
+            }
+            _ => {
+                let span = (hi - lo) as u128 + 1;
+                let r = ((rng.next_u64() as u128) << 64 | rng.next_u64() as u128) % span;
+                lo + r as i128
+            }
+        }
+    }
+    fn next(&mut self, rng: &mut Rng) -> i64 {
+        if !self.extreme {
+            return self.clock.next(rng);
+        }
+        self.left_up = self.left_up.saturating_sub(1);
+        let lo = match self.up {
+            Some(t) => t + 1,
+            None => i64::MIN as i128 + self.left_down as i128,
+        };
+        let hi = i64::MAX as i128 - self.left_up as i128;
+        let t = Stamps::choose(rng, lo, hi, true);
+        if self.up.is_none() {
+            self.down = Some(t);
+        }
+        self.up = Some(t);
+        t as i64
+    }
+    /// only after at least one `next`
+    fn older(&mut self, rng: &mut Rng) -> i64 {
+        if !self.extreme {
+            return self.past.next(rng);
+        }
+        self.left_down = self.left_down.saturating_sub(1);
+        let hi = self.down.expect("older() before next() (harness bug)") - 1;
+        let lo = i64::MIN as i128 + self.left_down as i128;
+        let t = Stamps::choose(rng, lo, hi, false);
+        self.down = Some(t);
+        t as i64
+    }
+    fn state_stamp(&self, rng: &mut Rng) -> i64 {
+        if self.extreme && rng.chance(0.5) {
+            landmark(rng) as i64
+        } else {
+            rng.range_i64(-(1i64 << 40), 1i64 << 40)
+        }
+    }
+}
 fn gen_state(rng: &mut Rng) -> Datum<State> {
-    Datum::new(Time(rng.range_i64(-(1i64 << 40), 1i64 << 40)), State::new_raw(rng.moderate(1e4), rng.moderate(1e4), rng.moderate(1e4)))
+    let t = rng.range_i64(-(1i64 << 40), 1i64 << 40);
+    gen_state_at(rng, t)
+}
+fn gen_state_at(rng: &mut Rng, t: i64) -> Datum<State> {
+    Datum::new(Time(t), State::new_raw(rng.moderate(1e4), rng.moderate(1e4), rng.moderate(1e4)))
 }
 /// Finite command value. `exact` devices (inverter, axle) take any finite f32; for gear trains the
 /// magnitude stays in [1e-30, 1e30] (or 0) so that x r and / r neither overflow nor go subnormal.
@@ -397,30 +527,146 @@ struct Plan {
     rounds: usize,
     /// per slot: the slot follows a scripted getter (all its commands arrive through it)
     follow: Vec<bool>,
+    /// stamps from the whole i64 range (the crate only compares command stamps)
+    extreme: bool,
+    /// 0: terminals taken from the device where it was built. 1: update() once, then the device
+    /// is moved, then terminals taken. 2: update(), a command set on one terminal, update(), move.
+    premove: u8,
+    move_kind: usize,
+}
+impl Plan {
+    fn usable(&self) -> usize {
+        self.conn.len() + self.conn.iter().filter(|c| **c).count()
+    }
+    fn followers(&self) -> usize {
+        (0..self.follow.len()).filter(|&s| self.follow[s] && (s % 2 == 0 || self.conn[s / 2])).count()
+    }
+}
+/// The three one-degree-of-freedom devices behind one interface (terminals are only ever taken
+/// from the device at its FINAL location).
+trait Dev<'a>: Updatable<E> {
+    fn terms(&self) -> Vec<&'a Term<'a>>;
+}
+impl<'a> Dev<'a> for Invert<'a, E> {
+    fn terms(&self) -> Vec<&'a Term<'a>> {
+        vec![self.get_terminal_1(), self.get_terminal_2()]
+    }
+}
+impl<'a> Dev<'a> for GearTrain<'a, E> {
+    fn terms(&self) -> Vec<&'a Term<'a>> {
+        vec![self.get_terminal_1(), self.get_terminal_2()]
+    }
+}
+impl<'a, const N: usize> Dev<'a> for Axle<'a, N, E> {
+    fn terms(&self) -> Vec<&'a Term<'a>> {
+        (0..N).map(|i| self.get_terminal(i)).collect()
+    }
+}
+const MOVES: [&str; 4] = ["boxed", "pushed-into-vec", "struct-field", "returned-from-function"];
+struct Holder<T> {
+    pad: [u64; 5],
+    dev: T,
+}
+#[inline(never)]
+fn build_holder<T>(dev: T, pad: u64) -> Holder<T> {
+    Holder { pad: [pad; 5], dev }
+}
+#[inline(never)]
+fn hand_over<T>(dev: T) -> Box<(u64, T)> {
+    Box::new((7, dev))
+}
+/// Build-time life of the device before the case proper: nothing / update() / update(), a command
+/// on one terminal, update() again - and then the device object is MOVED. No terminal reference
+/// taken before the move is used after it.
+fn run_dev<'a, D: Dev<'a>>(ctx: &mut Ctx, rng: &mut Rng, plan: &Plan, mut dev: D, ext: &'a [Term<'a>]) {
+    let fam = plan.dev.map().family();
+    let tag = plan.dev.tag();
+    let n = plan.dev.terms();
+    let mut stamps = Stamps::new(rng, plan.extreme, (plan.rounds * plan.usable()) as u64 + 1, (plan.rounds * plan.followers()) as u64);
+    let mut pre: Option<(usize, Datum<Command>)> = None;
+    let mut pre_note = String::new();
+    if plan.premove > 0 {
+        ctx.rep.eval();
+        match catch(|| dev.update()) {
+            Ok(Ok(())) => {}
+            other => {
+                ctx.bad(format!("C13/update/{}/failed-on-fresh-device", fam), format!("update of the freshly built {} -> {:?}", tag, other));
+                return;
+            }
+        }
+        pre_note = "update() once".into();
+        // a command before the move: only on an own slot that will not follow a getter
+        let free: Vec<usize> = (0..n).filter(|&k| !plan.follow[2 * k]).collect();
+        if plan.premove == 2 && !free.is_empty() {
+            let k = *rng.pick(&free);
+            let d = Datum::new(Time(stamps.next(rng)), mk_cmd(rng.usize(3), gen_value(rng, plan.dev.map().exact())));
+            let r = {
+                let ts = dev.terms();
+                set_cmd(ts[k], d)
+            };
+            ctx.rep.eval();
+            match (r, catch(|| dev.update())) {
+                (Ok(Ok(())), Ok(Ok(()))) => {}
+                other => {
+                    ctx.bad(format!("C13/update/{}/failed-before-move", fam), format!("{}: set({}) on terminal #{} then update -> {:?}", tag, fmt_cmd(&d), k, other));
+                    return;
+                }
+            }
+            pre = Some((2 * k, d));
+            pre_note = format!("update(), own#{}.set({}), update()", k, fmt_cmd(&d));
+            ctx.rep.tally(&format!("command_issued_before_move/{}", fam));
+        }
+        ctx.rep.tally(&format!("moved_after_update/{}/{}", tag, MOVES[plan.move_kind]));
+        ctx.rep.tally(&format!("moved_after_update/{}", fam));
+    }
+    let note = if plan.premove > 0 { format!("built, {}, then {}, then terminals taken", pre_note, MOVES[plan.move_kind]) } else { String::new() };
+    if plan.premove == 0 {
+        let terms = dev.terms();
+        engine(ctx, rng, &mut dev, &terms, ext, plan, stamps, pre, &note);
+        return;
+    }
+    match plan.move_kind {
+        0 => {
+            let mut b = Box::new(dev);
+            let terms = b.terms();
+            engine(ctx, rng, &mut *b, &terms, ext, plan, stamps, pre, &note);
+        }
+        1 => {
+            let mut v: Vec<D> = Vec::with_capacity(2);
+            v.push(dev);
+            let terms = v[0].terms();
+            engine(ctx, rng, &mut v[0], &terms, ext, plan, stamps, pre, &note);
+        }
+        2 => {
+            let mut h = build_holder(dev, rng.next_u64());
+            let terms = h.dev.terms();
+            engine(ctx, rng, &mut h.dev, &terms, ext, plan, stamps, pre, &note);
+            std::hint::black_box(&h.pad);
+        }
+        _ => {
+            let mut b = hand_over(dev);
+            let terms = b.1.terms();
+            engine(ctx, rng, &mut b.1, &terms, ext, plan, stamps, pre, &note);
+        }
+    }
 }
 fn single_case(ctx: &mut Ctx, rng: &mut Rng, plan: &Plan) {
-    macro_rules! go {
-        ($ext:ident, $dev:ident, $terms:expr) => {{
-            let terms: Vec<&Term<'_>> = $terms;
-            engine(ctx, rng, &mut $dev, &terms, &$ext, plan)
-        }};
-    }
     macro_rules! axle {
         ($n:literal) => {{
             let ext: [Term<'_>; 6] = core::array::from_fn(|_| Terminal::new());
-            let mut dev = Axle::<$n, E>::new();
-            go!(ext, dev, (0..$n).map(|i| dev.get_terminal(i)).collect())
+            let dev = Axle::<$n, E>::new();
+            run_dev(ctx, rng, plan, dev, &ext)
         }};
     }
     match &plan.dev {
         DevKind::Invert => {
             let ext: [Term<'_>; 6] = core::array::from_fn(|_| Terminal::new());
-            let mut dev = Invert::<E>::new();
-            go!(ext, dev, vec![dev.get_terminal_1(), dev.get_terminal_2()])
+            let dev = Invert::<E>::new();
+            run_dev(ctx, rng, plan, dev, &ext)
         }
         DevKind::Gear(g) => {
             let ext: [Term<'_>; 6] = core::array::from_fn(|_| Terminal::new());
-            let mut dev: GearTrain<'_, E> = match catch(|| g.build()) {
+            let dev: GearTrain<'_, E> = match catch(|| g.build()) {
                 Ok(d) => d,
                 Err(p) => {
                     ctx.rep.eval();
@@ -428,7 +674,7 @@ fn single_case(ctx: &mut Ctx, rng: &mut Rng, plan: &Plan) {
                     return;
                 }
             };
-            go!(ext, dev, vec![dev.get_terminal_1(), dev.get_terminal_2()])
+            run_dev(ctx, rng, plan, dev, &ext)
         }
         DevKind::Axle(1) => axle!(1),
         DevKind::Axle(2) => axle!(2),
@@ -438,7 +684,8 @@ fn single_case(ctx: &mut Ctx, rng: &mut Rng, plan: &Plan) {
         DevKind::Axle(_) => axle!(6),
     }
 }
-fn engine<'a>(ctx: &mut Ctx, rng: &mut Rng, dev: &mut dyn Updatable<E>, terms: &[&'a Term<'a>], ext: &'a [Term<'a>], plan: &Plan) {
+#[allow(clippy::too_many_arguments)]
+fn engine<'a>(ctx: &mut Ctx, rng: &mut Rng, dev: &mut dyn Updatable<E>, terms: &[&'a Term<'a>], ext: &'a [Term<'a>], plan: &Plan, mut stamps: Stamps, pre: Option<(usize, Datum<Command>)>, note: &str) {
     let n = terms.len();
     let map = plan.dev.map();
     let tag = plan.dev.tag();
@@ -466,15 +713,18 @@ fn engine<'a>(ctx: &mut Ctx, rng: &mut Rng, dev: &mut dyn Updatable<E>, terms: &
         }
     }
     let followers: Vec<usize> = (0..2 * n).filter(|&s| follows(s)).collect();
-    let mut clock = Clock::new(rng);
-    let mut past = PastClock::before(&clock);
     let mut ops: Vec<Op> = Vec::new();
-    let mut newest: Option<(usize, Datum<Command>)> = None;
+    // a command issued before the device was moved is present at its terminal like any other
+    let mut newest: Option<(usize, Datum<Command>)> = pre;
     let mut issuers: Vec<Option<usize>> = Vec::new();
     let mut extras: Vec<(u32, u32)> = Vec::new();
     let p_state = *rng.pick(&[0.0, 0.3, 0.8]);
-    let header = format!("{} {:?} connected-externals {:?} slots-following-a-getter {:?}", tag, plan.dev, plan.conn, followers.iter().map(|&s| slot_name(s)).collect::<Vec<_>>());
+    let header = format!("{} {:?} connected-externals {:?} slots-following-a-getter {:?}{}{}", tag, plan.dev, plan.conn, followers.iter().map(|&s| slot_name(s)).collect::<Vec<_>>(), if note.is_empty() { String::new() } else { format!(" [device: {}]", note) }, if plan.extreme { " [stamps from the whole i64 range]" } else { "" });
+    if plan.extreme {
+        ctx.rep.tally(&format!("extreme_stamp_cases/{}", fam));
+    }
     for round in 0..plan.rounds {
+        stamps.budget(((plan.rounds - round) * usable.len()) as u64, ((plan.rounds - round) * followers.len()) as u64);
         // ---- slots that receive a new command, in stamp order
         let mut order: Vec<usize> = if round == 0 {
             let mut v: Vec<(u32, usize)> = plan.first.iter().enumerate().filter_map(|(s, r)| r.map(|r| (r, s))).collect();
@@ -493,7 +743,7 @@ fn engine<'a>(ctx: &mut Ctx, rng: &mut Rng, dev: &mut dyn Updatable<E>, terms: &
         let cnt = order.len();
         for (i, s) in order.drain(..).enumerate() {
             let kind = if round == 0 && i + 1 == cnt { plan.first_kind } else { rng.usize(3) };
-            let d = Datum::new(Time(clock.next(rng)), mk_cmd(kind, gen_value(rng, map.exact())));
+            let d = Datum::new(Time(stamps.next(rng)), mk_cmd(kind, gen_value(rng, map.exact())));
             writes.push((s, d));
         }
         if let Some(&(s, d)) = writes.last() {
@@ -517,7 +767,7 @@ fn engine<'a>(ctx: &mut Ctx, rng: &mut Rng, dev: &mut dyn Updatable<E>, terms: &
             }
             let r = rng.below(10);
             if r < 2 && newest.is_some() && newest.map(|x| x.0) != Some(s) {
-                let d = Datum::new(Time(past.next(rng)), mk_cmd(rng.usize(3), gen_value(rng, map.exact())));
+                let d = Datum::new(Time(stamps.older(rng)), mk_cmd(rng.usize(3), gen_value(rng, map.exact())));
                 writes.push((s, d));
                 older_mask |= 1 << s;
                 ctx.rep.tally(&format!("followed/{}/{}/older-than-present", fam, if s % 2 == 0 { "device-terminal" } else { "external-terminal" }));
@@ -570,7 +820,8 @@ fn engine<'a>(ctx: &mut Ctx, rng: &mut Rng, dev: &mut dyn Updatable<E>, terms: &
         }
         for &s in &usable {
             if rng.chance(p_state) {
-                let d = gen_state(rng);
+                let t = stamps.state_stamp(rng);
+                let d = gen_state_at(rng, t);
                 ops.push(Op::St(s, d));
                 match set_state(slot_term(s), d) {
                     Ok(Ok(())) => {}
@@ -592,6 +843,29 @@ fn engine<'a>(ctx: &mut Ctx, rng: &mut Rng, dev: &mut dyn Updatable<E>, terms: &
             return;
         }
         let own_before: Vec<Option<Datum<Command>>> = (0..n).map(|k| own_cmd(terms[k])).collect();
+        // ---- coverage: two terminals presenting commands whose stamps are >= 2^63 apart
+        if plan.extreme {
+            let ts: Vec<Option<i128>> = pre.iter().map(|r| if let Ok(Ok(Some(d))) = r { Some(d.time.0 as i128) } else { None }).collect();
+            let mut far = false;
+            for a in 0..n {
+                for b in a + 1..n {
+                    if let (Some(x), Some(y)) = (ts[a], ts[b]) {
+                        if (x - y).abs() >= 1i128 << 63 {
+                            far = true;
+                            if n == 2 {
+                                ctx.rep.tally(&format!("extreme_pair_beyond_2^63/{}/newer-on-side-{}", fam, if x > y { 1 } else { 2 }));
+                            }
+                        }
+                    }
+                }
+            }
+            if far {
+                ctx.rep.tally(&format!("extreme_pair_beyond_2^63/{}", fam));
+            }
+            if ts.iter().flatten().any(|&t| t == i64::MIN as i128 || t == i64::MAX as i128) {
+                ctx.rep.tally("extreme_stamp_at_i64_limit_present");
+            }
+        }
         // ---- update
         ops.push(Op::Update(0));
         ctx.rep.eval();
@@ -663,7 +937,7 @@ fn engine<'a>(ctx: &mut Ctx, rng: &mut Rng, dev: &mut dyn Updatable<E>, terms: &
         }
     }
     ctx.rep.tally(&format!("cases_completed/{}", ctx.sub));
-    ctx.rep.distinct((ctx.sub, tag.clone(), plan.conn.clone(), plan.first.clone(), plan.first_kind, issuers, followers.clone(), extras));
+    ctx.rep.distinct((ctx.sub, tag.clone(), plan.conn.clone(), plan.first.clone(), plan.first_kind, issuers, followers.clone(), extras, plan.extreme, plan.premove, plan.move_kind));
     if ctx.rep.want_sample(ctx.sub) {
         ctx.rep.sample(ctx.sub, format!("{}; history {}: after every update every device terminal and connected external terminal read the newest command, mapped", header, fmt_ops(&ops)));
     }
@@ -753,11 +1027,38 @@ fn chain_case(ctx: &mut Ctx, seed: u64) {
         .collect();
     let conn_near = rng.chance(0.5);
     let conn_far = rng.chance(0.5);
-    // ---- everything that is referenced lives here and is never moved afterwards
+    // ---- the devices are built in one place, in some cases updated once there (no terminal has
+    // been handed out yet), then each is moved into its own box; terminals are taken only from the
+    // final location, which never moves afterwards
     let ext: [Term<'_>; 2] = core::array::from_fn(|_| Terminal::new());
-    let mut invs: [Invert<'_, E>; 5] = core::array::from_fn(|_| Invert::new());
-    let mut gears: Vec<GearTrain<'_, E>> = links.iter().map(|l| l.gear.build()).collect();
-    let mut axs: [Axle<'_, 2, E>; 5] = core::array::from_fn(|_| Axle::new());
+    let mut invs0: [Invert<'_, E>; 5] = core::array::from_fn(|_| Invert::new());
+    let mut gears0: Vec<GearTrain<'_, E>> = links.iter().map(|l| l.gear.build()).collect();
+    let mut axs0: [Axle<'_, 2, E>; 5] = core::array::from_fn(|_| Axle::new());
+    let updated_before_move = rng.chance(0.4);
+    if updated_before_move {
+        ctx.rep.eval();
+        let mut r: Vec<Result<NothingOrError<E>, String>> = Vec::new();
+        for d in invs0.iter_mut() {
+            r.push(catch(|| d.update()));
+        }
+        for d in gears0.iter_mut() {
+            r.push(catch(|| d.update()));
+        }
+        for d in axs0.iter_mut() {
+            r.push(catch(|| d.update()));
+        }
+        if r.iter().any(|x| !matches!(x, Ok(Ok(())))) {
+            ctx.bad("C13/update/chain/failed-on-fresh-device".into(), format!("update of freshly built devices -> {:?}", r));
+            return;
+        }
+        ctx.rep.tally("chain_devices_updated_then_moved");
+        for l in &links {
+            ctx.rep.tally(&format!("chain_moved_after_update/{}", l.family()));
+        }
+    }
+    let mut invs: Vec<Box<Invert<'_, E>>> = invs0.into_iter().map(Box::new).collect();
+    let mut gears: Vec<Box<GearTrain<'_, E>>> = gears0.into_iter().map(Box::new).collect();
+    let mut axs: Vec<Box<Axle<'_, 2, E>>> = axs0.into_iter().map(Box::new).collect();
     // (near, far) terminal of each device
     let terms: Vec<(&Term<'_>, &Term<'_>)> = (0..n)
         .map(|i| {
@@ -808,10 +1109,20 @@ fn chain_case(ctx: &mut Ctx, seed: u64) {
     let header = format!("chain of {}: {:?}; external terminal connected at near end: {}, at far end: {}; end slots following a getter [near own, near ext, far own, far ext] = {:?}; inner device terminals following a getter {:?}", n, links.iter().map(|l| format!("{}{}{}", l.family(), if l.kind == 1 { format!("(r={} via {:?})", f(l.gear.ratio()), l.gear) } else { String::new() }, if l.flipped { "[entered at terminal 2]" } else { "" })).collect::<Vec<_>>(), conn_near, conn_far, end_follow, inner.iter().map(|&ix| format!("dev{}.{}", ix / 2, if ix % 2 == 0 { "near" } else { "far" })).collect::<Vec<_>>());
     // random states here and there (not judged)
     let p_state = *rng.pick(&[0.0, 0.3, 0.8]);
-    let mut clock = Clock::new(rng);
-    let mut past = PastClock::before(&clock);
     let rounds = 1 + rng.usize(8);
+    let extreme = rng.chance(0.3);
+    let mut stamps = Stamps::new(rng, extreme, rounds as u64, (rounds * inner.len()) as u64);
+    if extreme {
+        ctx.rep.tally("extreme_stamp_cases/chain");
+    }
     let mut log: Vec<String> = Vec::new();
+    let mut prev_stamp: Option<i64> = None;
+    if updated_before_move {
+        log.push("[every device: built, update() once, moved into a box, then terminals taken and connected]".into());
+    }
+    if extreme {
+        log.push("[stamps from the whole i64 range]".into());
+    }
     let mut shape: Vec<(bool, bool, bool, u32)> = Vec::new();
     for round in 0..rounds {
         let forward = if round == 0 { first_forward } else { rng.chance(0.5) };
@@ -819,7 +1130,8 @@ fn chain_case(ctx: &mut Ctx, seed: u64) {
         for i in 0..n {
             for t in [terms[i].0, terms[i].1] {
                 if rng.chance(p_state) {
-                    let _ = set_state(t, gen_state(rng));
+                    let ts = stamps.state_stamp(rng);
+                    let _ = set_state(t, gen_state_at(rng, ts));
                 }
             }
         }
@@ -828,13 +1140,13 @@ fn chain_case(ctx: &mut Ctx, seed: u64) {
         let via_ext = entry_conn && rng.chance(0.6);
         let kind = rng.usize(3);
         // |c| <= 1e20 so that the product over five gear trains stays a normal f32
-        let c = Datum::new(Time(clock.next(rng)), mk_cmd(kind, gen_value_in(rng, false, 1e20)));
+        let c = Datum::new(Time(stamps.next(rng)), mk_cmd(kind, gen_value_in(rng, false, 1e20)));
         // inner followers: absent, or an older command (round 0: none has been injected yet, so only absent)
         let mut inner_mask = 0u32;
         for (j, &ix) in inner.iter().enumerate() {
             match rng.below(4) {
                 0 if round > 0 => {
-                    let d = Datum::new(Time(past.next(rng)), mk_cmd(rng.usize(3), gen_value_in(rng, false, 1e20)));
+                    let d = Datum::new(Time(stamps.older(rng)), mk_cmd(rng.usize(3), gen_value_in(rng, false, 1e20)));
                     src_put(rng, &inner_src[j], d);
                     log.push(format!("getter followed by the {} terminal of dev{} := {}", if ix % 2 == 0 { "near" } else { "far" }, ix / 2, fmt_cmd(&d)));
                     inner_mask |= 1 << ix;
@@ -877,6 +1189,12 @@ fn chain_case(ctx: &mut Ctx, seed: u64) {
             }
         }
         ctx.rep.tally(&format!("chain_rounds/len{}/{}", n, dir));
+        if let Some(p) = prev_stamp {
+            if (c.time.0 as i128 - p as i128) >= 1i128 << 63 {
+                ctx.rep.tally("extreme_chain_injection_beyond_2^63_after_previous");
+            }
+        }
+        prev_stamp = Some(c.time.0);
         ctx.rep.tally(&format!("chain_inject/{}", if via_ext { "external" } else { "own-slot" }));
         ctx.rep.tally(&format!("chain_inject/{}/{}/{}", dir, if via_ext { "external" } else { "own-slot" }, if followed { "followed-getter" } else { "set" }));
         // ---- update in order along the direction of travel
@@ -960,7 +1278,7 @@ fn chain_case(ctx: &mut Ctx, seed: u64) {
         }
     }
     ctx.rep.tally("cases_completed/chain");
-    ctx.rep.distinct(("chain", links.iter().map(|l| (l.kind, l.flipped, l.gear.tag())).collect::<Vec<_>>(), conn_near, conn_far, shape, end_follow, inner.clone()));
+    ctx.rep.distinct(("chain", links.iter().map(|l| (l.kind, l.flipped, l.gear.tag())).collect::<Vec<_>>(), conn_near, conn_far, shape, end_follow, inner.clone(), extreme, updated_before_move));
     if ctx.rep.want_sample("chain") {
         ctx.rep.sample("chain", format!("{}; history {:?}: every device terminal right after its update and the far end after the pass read the injected command x partial / full product", header, log));
     }
@@ -1141,7 +1459,9 @@ fn main() {
                         // delivery: repetition 0 of every four all by set(), 1 all by followed getters, 2-3 mixed
                         let follow = follow_mask(&mut rng, first.len(), rpt % 4);
                         rep.tally(["assign_cases/all-by-set", "assign_cases/all-by-followed-getter", "assign_cases/mixed", "assign_cases/mixed"][(rpt % 4) as usize]);
-                        let plan = Plan { dev, conn, first: first.clone(), first_kind, rounds, follow };
+                        // (no command before the move here: the enumerated assignment stays what it says)
+                        let (extreme, premove, move_kind) = (rng.chance(0.3), rng.chance(0.25) as u8, rng.usize(4));
+                        let plan = Plan { dev, conn, first: first.clone(), first_kind, rounds, follow, extreme, premove, move_kind };
                         rep.tally("assign_cases");
                         let mut ctx = Ctx { rep: &mut rep, sub: "assign", case };
                         single_case(&mut ctx, &mut rng, &plan);
@@ -1186,7 +1506,8 @@ fn main() {
                         let conn = conn_for(&mut rng, &first);
                         let mode = *rng.pick(&[0u64, 0, 1, 2, 2]);
                         let follow = follow_mask(&mut rng, 2 * n, mode);
-                        let plan = Plan { dev: DevKind::Axle(n), conn, first, first_kind, rounds: 1 + rng.usize(8), follow };
+                        let (extreme, premove, move_kind) = (rng.chance(0.3), *rng.pick(&[0u8, 0, 0, 0, 1, 2]), rng.usize(4));
+                        let plan = Plan { dev: DevKind::Axle(n), conn, first, first_kind, rounds: 1 + rng.usize(8), follow, extreme, premove, move_kind };
                         let mut ctx = Ctx { rep: &mut rep, sub: "axle", case };
                         single_case(&mut ctx, &mut rng, &plan);
                     }
@@ -1203,7 +1524,8 @@ fn main() {
         let conn = conn_for(&mut rng, &first);
         let mode = *rng.pick(&[0u64, 0, 1, 2, 2]);
         let follow = follow_mask(&mut rng, first.len(), mode);
-        let plan = Plan { dev, conn, first, first_kind: rng.usize(3), rounds: 1 + rng.usize(8), follow };
+        let (extreme, premove, move_kind) = (rng.chance(0.3), *rng.pick(&[0u8, 0, 0, 0, 1, 2]), rng.usize(4));
+        let plan = Plan { dev, conn, first, first_kind: rng.usize(3), rounds: 1 + rng.usize(8), follow, extreme, premove, move_kind };
         let mut ctx = Ctx { rep: &mut rep, sub: "random", case };
         single_case(&mut ctx, &mut rng, &plan);
     }
@@ -1257,6 +1579,28 @@ fn main() {
                 for how in ["followed-getter", "set"] {
                     rep.floor(&format!("chain_inject/{}/{}/{}", dir, slot, how), 500);
                 }
+            }
+        }
+        // ---- stamps from the whole i64 range; devices moved after they accumulated state
+        for fam in ["Invert", "GearTrain", "Axle", "chain"] {
+            rep.floor(&format!("extreme_stamp_cases/{}", fam), 1000);
+        }
+        for fam in ["Invert", "GearTrain", "Axle"] {
+            rep.floor(&format!("extreme_pair_beyond_2^63/{}", fam), 300);
+            rep.floor(&format!("moved_after_update/{}", fam), 500);
+            rep.floor(&format!("command_issued_before_move/{}", fam), 200);
+            rep.floor(&format!("chain_moved_after_update/{}", fam), 1000);
+        }
+        for fam in ["Invert", "GearTrain"] {
+            for side in [1, 2] {
+                rep.floor(&format!("extreme_pair_beyond_2^63/{}/newer-on-side-{}", fam, side), 100);
+            }
+        }
+        rep.floor("extreme_stamp_at_i64_limit_present", 100);
+        rep.floor("extreme_chain_injection_beyond_2^63_after_previous", 200);
+        for (tag, _) in &tags {
+            for mv in MOVES {
+                rep.floor(&format!("moved_after_update/{}/{}", tag, mv), 10);
             }
         }
         rep.floor("chain_inner_follower/older-command", 500);
